@@ -21,6 +21,12 @@ pub struct ApmTag {
 }
 
 impl ApmTag {
+    /// The size of the tag without the padding that Rust adds to the type.
+    const BASE_SIZE: usize = mem::size_of::<TagHeader>()
+        + 2 * mem::size_of::<u16>()
+        + mem::size_of::<u32>()
+        + 6 * mem::size_of::<u16>();
+
     /// Creates a new tag.
     #[allow(clippy::too_many_arguments)]
     #[must_use]
@@ -36,7 +42,7 @@ impl ApmTag {
         dseg_len: u16,
     ) -> Self {
         Self {
-            header: TagHeader::new(Self::ID, mem::size_of::<Self>() as u32),
+            header: TagHeader::new(Self::ID, Self::BASE_SIZE as u32),
             version,
             cseg,
             offset,
